@@ -216,10 +216,23 @@ func cmdCheck(args []string) {
 			if *tier == "thorough" {
 				c2.Timeout = 90 * time.Second
 			}
-			if s == seed+2 && len(again) <= 8 {
-				// a handful of stragglers: most likely a loaded machine, give them time and room
-				c2.Timeout = 120 * time.Second
-				c2.Workers = 4
+			if s == seed+2 {
+				// only obligations on which the solvers ran out of time are worth more time (a loaded machine);
+				// "unknown" means the solvers gave up, and more time does not change that
+				var slow []*Obligation
+				for _, o := range again {
+					if o.Result == "timeout" {
+						slow = append(slow, o)
+					}
+				}
+				again = slow
+				if len(again) == 0 {
+					break
+				}
+				if len(again) <= 8 {
+					c2.Timeout = 120 * time.Second
+					c2.Workers = 4
+				}
 			}
 			c2.AllAgree = false
 			Solve(again, c2)
